@@ -7,7 +7,9 @@ import re
 
 from sa.ast import render
 from sa.facts import Inconclusive
-from sa import query, loops
+from sa import query
+from sa import loops
+from rules import common
 from sa.mod import ModAnalysis
 from rules.C10 import indirect_table
 
@@ -158,7 +160,8 @@ def a3(prog, ctx, getters, setters):
     # NULL / empty section = the group-less marker, in lookup, creation and listing alike.  The choice may be a
     # conditional expression or an if/else; its condition is evaluated for the three kinds of section argument.
     from sa.cond import eval_str_cases
-    for n in ("find_key", "new_key", "econf_getKeys"):
+    holder = common.holder_of(prog, "new_key", ("key_file_append", "setGroup", "setKey"))
+    for n in ("find_key", holder.name if holder is not None else "new_key", "econf_getKeys"):
         f = prog.fn(n)
         ctx.touch(f)
         strparams = [p["name"] for p in f.params if "char" in p.get("type", p.get("ct", "char"))]
@@ -177,6 +180,13 @@ def a3(prog, ctx, getters, setters):
             cond = cur.child("cond")
             side = "then" if prev is cur.child("then") or (cur.child("then") is not None and lit.within(cur.child("then"))) else "else"
             other = cur.child("else") if side == "then" else cur.child("then")
+            if other is None and cur.k == "IfStmt" and side == "then" and any(x.k == "ReturnStmt" for x in cur.child("then").walk()):
+                # if (c) return A;  return B;   -  the statement behind the if is the other arm
+                par = cur.parent
+                if par is not None and par.k == "CompoundStmt" and cur in par.children:
+                    k2 = par.children.index(cur)
+                    if k2 + 1 < len(par.children):
+                        other = par.children[k2 + 1]
             for pnm in strparams:
                 if not query.mentions_name(cond, pnm) or other is None or not query.mentions_name(other, pnm):
                     continue
@@ -273,6 +283,8 @@ def a5(prog, ctx):
     ctx.touch(f)
     cfg = f.cfg
     nk = f.calls("new_key")
+    if not nk and not prog.has_fn("new_key"):
+        nk = f.calls("key_file_append")         # new_key() folded into its only caller: the append is the creation point
     if len(nk) != 1:
         raise Inconclusive("setKeyValue: new_key call not found")
     ok, cut = cfg.all_paths_cut(cfg.block_of(nk[0]), lambda lit, b, i: lit is not None and lit.kind == "eq" and "ECONF_NOKEY" in lit.atom and lit.pol
@@ -283,7 +295,7 @@ def a5(prog, ctx):
     else:
         ctx.fail("A5", "a new entry is created exactly on a lookup miss", nk[0].where, "new_key() reachable for other lookup results", key="newkey-cond")
     idx = [st for lhs, rhs, st, kind in query.stores(f) if render(lhs) == "num" and rhs is not None]
-    good = [st for st in idx if render(st.children[1]) == "kf->length - 1" and cfg.node_dominates(nk[0], st)]
+    good = [st for st in idx if render(st.children[1]) == "kf->length - 1" and cfg.must_pass(nk[0], st)]
     if good:
         ctx.ok("A5", "the value is stored into the appended entry", good[0].where, "num = kf->length - 1 after new_key()")
     else:
@@ -329,11 +341,29 @@ def a5(prog, ctx):
     else:
         ctx.fail("A5", "key_file_append grows by one entry", re_[0].where, "size %s" % size, key="append-size")
     # new_key: append, then group and key go into the last entry
-    n = prog.fn("new_key")
+    n = common.holder_of(prog, "new_key", ("key_file_append", "setGroup", "setKey"))
+    if n is None:
+        ctx.inconclusive("A5", "new_key fills the appended entry", "", "neither new_key nor a function that appends and sets group and key found")
+        return
     ctx.touch(n)
     for callee in ("setGroup", "setKey"):
         cs = n.calls(callee)
-        if len(cs) == 1 and render(cs[0].call_args()[1]) == "key_file->length - 1" and n.calls("key_file_append") and \
+        idx_ok = False
+        if len(cs) == 1 and n.calls("key_file_append"):
+            want_idx = "%s->length - 1" % render(cs[0].call_args()[0])
+            ia = cs[0].call_args()[1].strip()
+            if render(ia) == want_idx:
+                idx_ok = True
+            elif ia.k == "DeclRefExpr" and ia.j.get("dk") == "local":
+                # through a local that was set to the last index after the append
+                from sa.dataflow import ReachingDefs
+                ds = ReachingDefs(n).reaching(ia.j["name"], cs[0])
+                wants = [d for d in ds if d.rhs is not None and render(d.rhs) == want_idx and d.node is not None]
+                others = [d for d in ds if d not in wants]
+                ncfg = n.cfg
+                idx_ok = len(wants) == 1 and ncfg.must_pass(n.calls("key_file_append")[0], wants[0].node) and ncfg.must_pass(wants[0].node, cs[0]) and \
+                    all(d.node is None or ncfg.block_of(d.node) not in ncfg.reachable(ncfg.block_of(wants[0].node)) for d in others)
+        if idx_ok and \
                 n.cfg.must_pass(n.calls("key_file_append")[0], cs[0]):
             ctx.ok("A5", "new_key fills the appended entry (%s)" % callee, cs[0].where, "index key_file->length - 1 after key_file_append()")
         else:
@@ -366,46 +396,76 @@ def a6(prog, ctx, defs):
 def a7(prog, ctx):
     g = prog.fn("econf_getGroups")
     ctx.touch(g)
-    lp = [x for x in g.walk() if x.k == "ForStmt"]
-    if len(lp) != 1:
+    lps = [x for x in g.walk() if x.k in ("ForStmt", "WhileStmt", "DoStmt")]
+    trs = [(x, t) for x in lps for t in loops.traversals(x) if t.base == "kf->groups"]
+    if len(trs) != 1:
         raise Inconclusive("econf_getGroups: loop not recognised")
-    sh = loops.for_shape(lp[0])
-    if loops.covers_range(sh, 0, "kf->group_count"):
-        ctx.ok("A7", "econf_getGroups visits every section in order", lp[0].where, sh.describe())
+    lp0, tr = trs[0]
+    lp = [lp0]
+    if tr.covers("kf->groups", "kf->group_count"):
+        ctx.ok("A7", "econf_getGroups visits every section in order", lp[0].where, tr.describe())
     else:
-        ctx.fail("A7", "econf_getGroups visits every section in order", lp[0].where, "loop is %s" % sh.describe(), key="groups-loop")
+        ctx.fail("A7", "econf_getGroups visits every section in order", lp[0].where, "loop is %s" % tr.describe(), key="groups-loop")
     cfg = g.cfg
     app = [st for lhs, rhs, st, kind in query.stores(g) if render(lhs).startswith("(*groups)[") and rhs is not None and "strdup" in render(rhs)]
     if app:
         st = app[0]
-        srcok = render(st.children[1]) == "strdup(kf->groups[%s])" % sh.var
-        okm, cutm = cfg.all_paths_cut(cfg.block_of(st), lambda lit, b, i: lit is not None and lit.kind == "truth" and lit.pol and lit.node.k == "CallExpr"
-                                      and lit.node.j.get("callee") == "strcmp" and any(a.string_value() == MARKER for a in lit.node.call_args()))
+        r0 = st.children[1].strip()
+        srcok = r0.k == "CallExpr" and r0.j.get("callee") == "strdup" and r0.call_args() and tr.is_elem(render(r0.call_args()[0]))
+
+        def marker_test(lit, b, i):
+            return (lit is not None and lit.kind == "truth" and lit.pol and lit.node.k == "CallExpr" and lit.node.j.get("callee") == "strcmp"
+                    and any(a.string_value() == MARKER for a in lit.node.call_args()) and any(tr.is_elem(render(a)) for a in lit.node.call_args()))
+        okm, cutm = cfg.all_paths_cut(cfg.block_of(st), marker_test)
         hb = cfg.loop_header(lp[0])
         other_conds = [(b, i) for (b, i, s) in cfg.edges() if b in cfg.natural_loop(hb) and b != hb and cfg.edge_lit(b, i) is not None
                        and (b, i) not in cutm and not cfg.edge_lit(b, i).atom.startswith("*groups") and "strcmp" not in cfg.edge_lit(b, i).atom
-                       and "(*groups)[" not in cfg.edge_lit(b, i).atom]
+                       and "(*groups)[" not in cfg.edge_lit(b, i).atom and cfg.blocks[b].cond is not None and not cfg.blocks[b].cond.within(lp[0].child("cond") or lp[0])
+                       and cfg.block_of(st) in cfg.reachable(cfg.blocks[b].succs[i], avoid_blocks=[hb]) and
+                       cfg.block_of(st) not in cfg.reachable(cfg.blocks[b].succs[1 - i], avoid_blocks=[hb])]
         if srcok and okm and cutm and not other_conds:
-            ctx.ok("A7", "econf_getGroups lists exactly the named sections", st.where, "copies groups[%s] unless it is the group-less marker" % sh.var)
+            ctx.ok("A7", "econf_getGroups lists exactly the named sections", st.where, "copies the current element unless it is the group-less marker")
         else:
             ctx.fail("A7", "econf_getGroups lists exactly the named sections", st.where,
                      "copy of %s %s" % (render(st.children[1]), "under further conditions" if other_conds else "not filtered by the marker only"), key="groups-filter")
     else:
         ctx.fail("A7", "econf_getGroups lists exactly the named sections", g.where, "no copy into the result", key="groups-filter")
     # setGroupList: append only on miss, at the end
+    from sa import arrays
     s = prog.fn("setGroupList")
     ctx.touch(s)
     scfg = s.cfg
     first = s.calls("getFromGroupList")
-    app = [st for lhs, rhs, st, kind in query.stores(s) if render(lhs) == "key_file->groups[key_file->group_count - 1]"]
+    obj = s.params[0]["name"]
+    cnt_key = "%s->group_count" % obj
+    # the store of the new name: groups[I] = strdup(name) (directly, or of a local holding the copy)
+    app = []
+    for lhs, rhs, st, kind in query.stores(s):
+        l = lhs.strip()
+        if kind == "=" and l.k == "ArraySubscriptExpr" and render(l.children[0]) == "%s->groups" % obj and rhs is not None and not rhs.is_null_const():
+            app.append((l, st))
     if first and app:
         v = first[0].up()
-        var = v.j["decls"][0]["name"] if v is not None and v.k == "DeclStmt" else None
-        ok, cut = scfg.all_paths_cut(scfg.block_of(app[0]), lambda lit, b, i: lit is not None and lit.kind == "truth" and lit.atom == var and not lit.pol)
-        if ok and cut:
-            ctx.ok("A7", "a section is added to the list once, at the end", app[0].where, "append behind getFromGroupList() == NULL, at index group_count-1")
+        var = v.j["decls"][0]["name"] if v is not None and v.k == "DeclStmt" else (render(v.children[0]) if v is not None and v.k == "BinaryOperator" else None)
+        l, st = app[0]
+        ok, cut = scfg.all_paths_cut(scfg.block_of(st), lambda lit, b, i: lit is not None and lit.kind == "truth" and lit.atom == var and not lit.pol)
+        snaps = arrays.symbolic_snapshots(s, [st])
+        idx_vals = set()
+        for env in snaps.get(st.id, []):
+            idx_vals.add(arrays.symval(l.children[1], env))
+        finals = set(env.get(cnt_key, (cnt_key, 0)) for env, passed in snaps["exit"] if st.id in passed)
+        at_end = idx_vals == {(cnt_key, 0)} and finals == {(cnt_key, 1)}
+        if ok and cut and at_end:
+            ctx.ok("A7", "a section is added to the list once, at the end", st.where,
+                   "append behind getFromGroupList() == NULL, at the old group_count, which then grows by one")
+        elif not (ok and cut):
+            ctx.fail("A7", "a section is added to the list once, at the end", st.where, "append also when the section is already listed", key="grouplist-dup")
+        elif None in idx_vals or None in finals:
+            ctx.inconclusive("A7", "a section is added to the list once, at the end", st.where, "index / counter arithmetic not understood")
         else:
-            ctx.fail("A7", "a section is added to the list once, at the end", app[0].where, "append also when the section is already listed", key="grouplist-dup")
+            ctx.fail("A7", "a section is added to the list once, at the end", st.where,
+                     "the new name is stored at index %s and the counter ends at %s (relative to the old group_count)" % (
+                         sorted(str(x) for x in idx_vals), sorted(str(x) for x in finals)), key="grouplist-end")
     else:
         ctx.fail("A7", "a section is added to the list once, at the end", s.where, "append idiom not found", key="grouplist-dup")
     # econf_getKeys
@@ -426,7 +486,7 @@ def a7(prog, ctx):
         ctx.fail("A7", "econf_getKeys filters by section equality", (cmp_[0] if cmp_ else k).where,
                  "section filter is %s" % ([render(c) for c in cmp_] or "missing"), key="keys-filter")
     cp = [st for lhs, rhs, st, kind in query.stores(k) if render(lhs).startswith("(*keys)[")]
-    if cp and re.match(r"strdup\(kf->file_entry\[\w+\]\.key\)", render(cp[0].children[1])) and "++" in render(cp[0].children[0]):
+    if cp and re.match(r"strdup\(kf->file_entry\[[\w$.]+\]\.key\)", render(cp[0].children[1])) and "++" in render(cp[0].children[0]):
         ctx.ok("A7", "econf_getKeys returns the keys in entry order", cp[0].where, render(cp[0]))
     else:
         ctx.fail("A7", "econf_getKeys returns the keys in entry order", (cp[0] if cp else k).where, "copy statement %s" % ([render(c) for c in cp]), key="keys-copy")
